@@ -148,7 +148,14 @@ func VH_C07_release() {
 	if closing {
 		r.doClose(ErrServerClosed)
 	}
+	// how leadership ended: quorum loss / higher term in a reply (no leader known), or an append/install request from
+	// the new leader (that leader is known by the time release runs)
 	r.setState(Follower)
+	if vBool("deposedByNewLeader") {
+		r.setLeader(2)
+	} else if vBool("leaderForgotten") {
+		r.setLeader(0)
+	}
 	l.release()
 	for i, ne := range subs {
 		vAssert(isClosed(ne.Done()), "T5-every-task-completed-after-release")
